@@ -151,7 +151,21 @@ def _fontspecs():
     t1 = {"Type": LIT("Font"), "Subtype": LIT("Type1"), "BaseFont": LIT("NoStd"), "FirstChar": 65, "Widths": [500, 600], "Encoding": {"Differences": [65, LIT("B")]},
           "FontDescriptor": {"FontName": LIT("NoStd"), "FontBBox": [0, 0, 1000, 1000]}}
     t3 = {"Type": LIT("Font"), "Subtype": LIT("Type3"), "FontBBox": [0, 0, 1, 1], "FontMatrix": [0.001, 0, 0, 0.001, 0, 0], "FirstChar": 65, "Widths": [500], "Encoding": {"Differences": [65, LIT("A")]}}
-    return {"f1": f1, "f2": f2, "t1": t1, "t3": t3, "desc": desc}
+    # two Type 1 fonts WITHOUT /Encoding: pf recovers its encoding from the embedded font program (65 -> B, 66 -> A), pn relies on the shared StandardEncoding table
+    header = b"%!PS-AdobeFont-1.0: PF 001.000\n/Encoding 256 array\n0 1 255 {1 index exch /.notdef put} for\ndup 65 /B put\ndup 66 /A put\nreadonly def\ncurrentfile eexec\n"
+    prog = PDFStream({"Length1": len(header)}, header)
+    pf = {"Type": LIT("Font"), "Subtype": LIT("Type1"), "BaseFont": LIT("PF"), "FirstChar": 65, "Widths": [500, 600],
+          "FontDescriptor": {"FontName": LIT("PF"), "FontBBox": [0, 0, 1000, 1000], "FontFile": prog}}
+    pn = {"Type": LIT("Font"), "Subtype": LIT("Type1"), "BaseFont": LIT("PN"), "FirstChar": 65, "Widths": [500, 600], "FontDescriptor": {"FontName": LIT("PN"), "FontBBox": [0, 0, 1000, 1000]}}
+    return {"f1": f1, "f2": f2, "t1": t1, "t3": t3, "desc": desc, "pf": pf, "pn": pn}
+
+
+ABSOLUTE = {"pf": ["B", "A"], "pn": ["A", "B"], "t1": ["B", "B"]}          # text of codes 65, 66 that does not depend on anything but the font's own dictionary
+
+
+def _shared_tables():
+    import pdfminer.encodingdb as ed
+    return {k: dict(v) for k, v in vars(ed.EncodingDB).items() if isinstance(v, dict)}
 
 
 def _snap(x, depth=0):
@@ -182,16 +196,22 @@ def h4_getfont(ncalls=3, timeout=150, part=None, **kw):
 
     def fn(ex):
         specs = _fontspecs()
-        names = ["f1", "f2", "t1", "t3"]
+        names = ["f1", "f2", "t1", "t3", "pf", "pn"]
         caching = ex.choice(2, "caching") == 1
-        hist = [names[ex.choice(4, "h%d" % i)] for i in range(ncalls)]
-        ids = {"f1": 11, "f2": 12, "t1": 13, "t3": 14}
+        hist = [names[ex.choice(len(names), "h%d" % i)] for i in range(ncalls)]
+        ids = {"f1": 11, "f2": 12, "t1": 13, "t3": 14, "pf": 15, "pn": 16}
         rm = pi.PDFResourceManager(caching=caching)
         before = {k: _snap(v) for k, v in specs.items()}
+        tables = _shared_tables()
         sigs = {}
         for i, n in enumerate(hist):
             f = rm.get_font(ids[n], specs[n])
             sig = _font_sig(f)
+            if n in ABSOLUTE:
+                got = [_try(f.to_unichr, c) for c in (65, 66)]
+                ex.require(got == ABSOLUTE[n], "font %s after the history %r shows codes 65, 66 as %r, its own dictionary / font program says %r" % (n, hist[:i], got, ABSOLUTE[n]),
+                           hist=hist, caching=caching, step=i)
+            ex.require(_shared_tables() == tables, "building font %s modified a process-wide encoding table" % n, hist=hist, caching=caching, step=i)
             # reference: a fresh manager, fresh specs
             ref = _font_sig(pi.PDFResourceManager(caching=False).get_font(None, _fontspecs()[n]))
             ex.require(sig == ref, "font %s obtained after the history %r (caching=%s) differs from the same font built in isolation: %r vs %r" % (n, hist[:i], caching, sig, ref),
@@ -202,7 +222,7 @@ def h4_getfont(ncalls=3, timeout=150, part=None, **kw):
 
     def conc(m, info):
         return info
-    return core.run_symx("H4_getfont", fn, [pi.PDFResourceManager.get_font], {"fonts": "two Type0 fonts sharing one descendant (only one has ToUnicode), a Type1 and a Type3 font",
+    return core.run_symx("H4_getfont", fn, [pi.PDFResourceManager.get_font], {"fonts": "two Type0 fonts sharing one descendant (only one has ToUnicode), a Type1 and a Type3 font with Differences, two Type1 fonts without Encoding (one with an embedded font program)",
                                                                             "history": "every sequence of %d get_font calls" % ncalls, "caching": "on/off"}, timeout, concretize=conc, part=part)
 
 
@@ -318,11 +338,18 @@ def replay(harness, inp):
         return C07.replay("H5_mapcache", inp)
     if harness == "H4_getfont":
         specs = _fontspecs()
-        ids = {"f1": 11, "f2": 12, "t1": 13, "t3": 14}
+        ids = {"f1": 11, "f2": 12, "t1": 13, "t3": 14, "pf": 15, "pn": 16}
         rm = pi.PDFResourceManager(caching=inp["caching"])
         before = {k: _snap(v) for k, v in specs.items()}
+        tables = _shared_tables()
         for i, n in enumerate(inp["hist"]):
-            sig = _font_sig(rm.get_font(ids[n], specs[n]))
+            f = rm.get_font(ids[n], specs[n])
+            if n in ABSOLUTE and [_try(f.to_unichr, c) for c in (65, 66)] != ABSOLUTE[n]:
+                return "get_font history %r (caching=%s): font %s shows codes 65, 66 as %r, its own dictionary / font program says %r" % (
+                    inp["hist"][:i + 1], inp["caching"], n, [_try(f.to_unichr, c) for c in (65, 66)], ABSOLUTE[n])
+            if _shared_tables() != tables:
+                return "get_font history %r: building font %s modified a process-wide encoding table" % (inp["hist"][:i + 1], n)
+            sig = _font_sig(f)
             ref = _font_sig(pi.PDFResourceManager(caching=False).get_font(None, _fontspecs()[n]))
             if sig != ref:
                 return "get_font history %r (caching=%s): font %s (class, name, vertical, multibyte, widths, text of codes 34/65/66) = %r, built in isolation %r" % (inp["hist"][:i + 1], inp["caching"], n, sig, ref)
